@@ -36,6 +36,7 @@ def KickOldControlConnection : List String := ["clientRegistry.KickOldConnection
 def RemoveControlConnection : List String := ["clientRegistry.GetByConnID", "clientRegistry.Remove", "cloudControl.DisconnectClientIfMatch"]
 def SendCommandToClient : List String := ["GetControlConnectionByClientID", "sendCommandLocal", "sendCommandCrossNode"]
 def SendHTTPProxyRequest : List String := ["GetControlConnectionByClientID", "sendHTTPProxyRequestLocal", "connStateStore.FindClientNode", "sendHTTPProxyRequestCrossNode"]
+def SendHTTPProxyRequest_writes : List String := ["GetControlConnectionByClientID", "connStateStore.FindClientNode"]
 def SessionManager_onClose : List String := ["clientRegistry.Close", "tunnelRegistry.Close", "connLock.Lock", "connLock.Unlock"]
 def StateRepo_GetState : List String := ["storage.Get"]
 def StateRepo_SetState : List String := ["state.Validate", "storage.Set"]
@@ -45,11 +46,13 @@ def WebSocketModule_handleConnection : List String := ["session.CloseConnection"
 def cleanupStaleConnections : List String := ["clientRegistry.CleanupStale", "cloudControl.DisconnectClientIfMatch", "CloseConnection"]
 def clientIndexPointsTo_storage : List String := ["storage.Get"]
 def handleDNSQueryCrossNode : List String := ["connStateStore.FindClientNode", "crossNodePool.Get", "WriteFrame", "ReadFrame"]
+def handleDNSQueryCrossNode_writes : List String := ["connStateStore.FindClientNode"]
 def handleDisconnectCommand : List String := ["clientRegistry.GetByConnID", "CloseConnection"]
 def handleHandshake : List String := ["RegisterControlConnection", "RegisterControlConnection", "authHandler.HandleHandshake", "sendHandshakeResponse", "clientRegistry.DropStaleIndex", "sendHandshakeResponse", "clientRegistry.GetByClientID", "connStateStore.UnregisterConnection", "clientRegistry.Remove", "clientRegistry.UpdateAuth", "connStateStore.RegisterConnection"]
 def handleHeartbeat : List String := ["clientRegistry.GetByConnID", "controlConn.UpdateActivity", "cloudControl.EnsureClientOnline", "connStateStore.RefreshConnection"]
 def removeConnectionLocked : List String := ["Stream.Close", "unindexLocked", "delete"]
 def sendCommandCrossNode : List String := ["connStateStore.FindClientNode", "crossNodePool.Get", "WriteFrame", "ReadFrame"]
+def sendCommandCrossNode_writes : List String := ["connStateStore.FindClientNode"]
 def unindexLocked : List String := ["delete"]
 def updateClientRuntimeState : List String := ["cloudControl.ConnectClient"]
 end Skel
